@@ -4,6 +4,14 @@ Require Import QzSched.Gen.Params QzSched.SchedModel QzSched.Registry QzSched.Ap
 Import ListNotations.
 Open Scope Z_scope.
 
+(* ---------- the generated lock / ordering facts (C09_bodies_locked) ---------- *)
+Lemma p_all_locked : all_bodies_locked = true. Proof. reflexivity. Qed.
+Lemma p_api_reset : api_mutations_reset = true. Proof. reflexivity. Qed.
+Lemma p_fetch_reset : fetch_resets_after_push = true. Proof. reflexivity. Qed.
+Lemma p_sched_before_lock : schedule_trigger_before_lock = true. Proof. reflexivity. Qed.
+Lemma p_pause_order : pause_get_remove_push = true. Proof. reflexivity. Qed.
+Lemma p_fetch_order : fetch_pop_validate_push = true. Proof. reflexivity. Qed.
+
 Lemma r_lookup_remove : forall k k' r, r_lookup k' (r_remove k r) = if key_eqb k' k then None else r_lookup k' r.
 Proof.
   intros k k' r. induction r as [|[a v] r IH]; simpl.
